@@ -57,6 +57,8 @@ def gen_config(rng, out):
             elif r < 0.65:
                 trig = 1 - trig
                 ctl += ["settrig", str(trig)]
+            elif r < 0.75:
+                ctl += ["settrig", str(trig)]      # a reconfiguration while running that leaves the trigger setting as it is
             ctl += ["yield", str(rng.choice([0, 1, 3, 8, 20, 60]))]
         if rng.random() < 0.3:
             ctl += ["waitframes", str(rng.randint(1, 3))] if not trig else []
